@@ -148,6 +148,8 @@ bool DecodeInteger(const ::std::string &text, IntType *result) {
   }
   // "", "0x", "0b", "-", "-0x", and "-0b" are not valid numbers.
   if (offset == text.size()) return false;
+  // Neither are "0x_", "-_", and so on: there must be at least one digit.
+  bool has_digit = false;
   for (; offset < text.size(); ++offset) {
     char c = text[offset];
     IntType digit = 0;
@@ -168,6 +170,7 @@ bool DecodeInteger(const ::std::string &text, IntType *result) {
     if (digit >= base) {
       return false;
     }
+    has_digit = true;
     if (negative) {
       if (accumulator <
           (::std::numeric_limits<IntType>::min() + digit) / base) {
@@ -182,6 +185,7 @@ bool DecodeInteger(const ::std::string &text, IntType *result) {
       accumulator = accumulator * base + digit;
     }
   }
+  if (!has_digit) return false;
   *result = accumulator;
   return true;
 }
